@@ -86,6 +86,7 @@ impl Prop for C10 {
                 cfg.faults = t.chance(1, 6);
                 cfg.position = t.chance(1, 3);
                 cfg.max_items = 6;
+                cfg.include_via_body = true;
                 let case = gen_case(ctx, t, &cfg)?;
                 let o = compare_with_model(ctx, "C10", case, st)?;
                 let ms = &o.model.stats;
@@ -121,6 +122,7 @@ impl Prop for C10 {
             "ignore" => {
                 let mut cfg = PpCfg::full();
                 cfg.max_items = 6;
+                cfg.include_via_body = true;
                 // the generator tracks liveness as if includes were read; with ignore_include a chain may reach an
                 // `elsif it assumed dead, so predefined names (known finding K2) are kept out of conditions here
                 cfg.position = false;
